@@ -50,9 +50,14 @@ class TargetURI:
         return cls(urlunparse((scheme, netloc, "", "", urlencode(args), "")))
 
     @property
-    def scheme(self) -> TransportScheme:
+    def scheme(self) -> TransportScheme | str:
         """The URI scheme"""
-        return TransportScheme(self.url.scheme)
+        try:
+            return TransportScheme(self.url.scheme)
+        except ValueError:
+            # Transports registered by plugins bring their own scheme,
+            # which is not a member of the builtin enum.
+            return self.url.scheme
 
     @property
     def hostname(self) -> str | None:
